@@ -40,7 +40,9 @@ ASSUMPTIONS = [
     "the model's namespace has two levels (group key -> leaf path): the leaves of a nested sub-group are kept under "
     "their dotted paths (the runner flattens what it observes the same way); one nesting level below the group; "
     "group keys have no dot and no leading '-', member names are distinct identifiers (finding class 6 otherwise: "
-    "never generated, not listed); no config gives a sub-group key null",
+    "never generated, not listed); for a declaration with a nested sub-group no config (object, string, --cfg, "
+    "APP_CFG) gives the group key or the sub-group key a non-mapping (string / null / scalar): the flattened namespace "
+    "cannot hold a leaf that later becomes a branch again (on flat declarations these inputs are generated: classes 3, 4)",
     "a declaration overrides only defaults of parameters that have one (with an override present every parameter has a "
     "signature default: a dataclass instance needs a value for each)",
     "the add_argument styles are declared from the normal form of the field list under the documented signature rules "
@@ -249,14 +251,17 @@ def gen_config(rng, gk, fs, complete):
     subs = sorted({nm.split(".")[0] for nm, _, _ in fs if "." in nm})
     if subs and r < 0.06:   # the sub-group key itself: empty mapping / non-mapping / config string
         sub = rng.choice(subs)
-        inner = {k.split(".", 1)[1]: v for k, v in group_dict(rng, fs, complete).items() if k.startswith(sub + ".")}
-        d = {g: {sub: rng.choice([{}, 5, "abc", json.dumps(inner)])}}   # not None: see ASSUMPTIONS
+        d = {g: {sub: {}}}
     elif r < 0.62:
         d = {g: nest(group_dict(rng, fs, complete))}
     elif r < 0.72:   # dotted keys
         d = {}
         for k, v in group_dict(rng, fs, complete).items():
             d[g + "." + k] = v
+    elif subs and r < 0.86:
+        # a nested declaration never gets a non-mapping for the group / sub-group key in a config: a leaf that later
+        # becomes a branch again is not representable in the flattened namespace of the model (see ASSUMPTIONS)
+        d = {g: nest(group_dict(rng, fs, complete))}
     elif r < 0.78:
         d = {g: rng.choice([5, [1], True])}
     elif r < 0.86:   # class 3: string / null for the group key
